@@ -633,7 +633,16 @@ func runC13(r *rep.R) {
 					if once && step == n {
 						continue
 					}
-					for _, dl := range []int{500, 1000, 3500} {
+					dls := []int{500, 1000, 3500}
+					if thorough(r) {
+						// every quarter second up to 8 s: the deadline falls at every
+						// boundary between attempts (1 s) and back-off sleeps (250 ms)
+						dls = nil
+						for d := 250; d <= 8000; d += 250 {
+							dls = append(dls, d)
+						}
+					}
+					for _, dl := range dls {
 						do(c13Case{Call: call, Pattern: p, Step: step, Once: once, DeadMS: dl})
 					}
 				}
